@@ -77,4 +77,32 @@ theorem finalSV_eq_svOnly (n : Nat) (f : Nat → List α → Option (List Nat)) 
     | call via a reps drawn ts us =>
       rw [stepH_call_state]; rfl
 
+/-! ### DiscreteRV objects -/
+
+theorem drvDraw_eq_drvDrawQ [Add α] [LT α] [DecidableLT α] (q us : List α) :
+    drvDraw q us = drvDrawQ (cumsum q) us := rfl
+
+theorem runD_append [Add α] [LT α] [DecidableLT α] (q : List α) (h : List (DOp α)) (op : DOp α) :
+    runD q (h ++ [op]) = runD q h ++ [(stepD (finalQ q h) op).2] := by
+  induction h generalizing q with
+  | nil => simp [runD, finalQ]
+  | cons o os ih =>
+    simp only [List.cons_append, runD, ih]
+    simp [finalQ]
+
+/-- the probability vector after a history: the last assignment, or the initial vector -/
+def lastQ (q : List α) : List (DOp α) → List α
+  | [] => q
+  | .setQ q' :: rest => lastQ q' rest
+  | .draw _ :: rest => lastQ q rest
+
+theorem finalQ_eq_lastQ [Add α] [LT α] [DecidableLT α] (q : List α) (h : List (DOp α)) :
+    finalQ q h = lastQ q h := by
+  induction h generalizing q with
+  | nil => rfl
+  | cons o os ih =>
+    have : finalQ q (o :: os) = finalQ (stepD q o).1 os := by simp [finalQ]
+    rw [this, ih]
+    cases o <;> rfl
+
 end QE.C10
